@@ -41,8 +41,10 @@ func simpEngine(raw json.RawMessage, _ []string) (any, error) {
 	origPrintE := ""
 	if err := syntax.NewPrinter().Print(&buf0, f); err != nil {
 		origPrintE = err.Error()
-	} else if _, err := parseBash(buf0.String()); err != nil {
+	} else if f1, err := parseBash(buf0.String()); err != nil {
 		origPrintE = err.Error()
+	} else if !reflect.DeepEqual(Abs(f1), abs0) {
+		origPrintE = "re-parses to a different tree"
 	}
 	changed := syntax.Simplify(f)
 	abs1 := Abs(f)
